@@ -26,7 +26,7 @@ def gen_case(r, cid, impl, hasher, big, stats=None):
         pool = min(pool, r.choice([12, 40, 200]))
     nphases = r.randint(2, 6)
     for ph in range(nphases):
-        kind = r.choice(["bulk_ins", "bulk_del", "mixed", "mixed", "clear", "compute_abs", "fn_ins"])
+        kind = r.choice(["bulk_ins", "bulk_del", "mixed", "mixed", "clear", "compute_abs", "fn_ins", "drain_head"])
         st("phase:" + kind)
         if kind == "bulk_ins":
             ks = list(range(pool)); r.shuffle(ks)
@@ -42,6 +42,20 @@ def gen_case(r, cid, impl, hasher, big, stats=None):
                     ops.append("OP loadorcompute %d %d" % (base + j, val()))
                 else:
                     ops.append("OP compute %d %s %d" % (base + j, r.choice(["set", "incr", "delifloaded"]), val()))
+        elif kind == "drain_head":
+            # fill chains beyond one bucket (below the grow threshold), empty their leading buckets by
+            # deleting in insertion order, then look every survivor up again (plain Load and the others)
+            base = 200000 + ph * 10000
+            n = r.choice([60, 70, 110]) if not big else r.choice([70, 140, 280])
+            for j in range(n):
+                ops.append("OP store %d %d" % (base + j, val()))
+            cut = r.randint(n // 2, n - 3)
+            for j in range(cut):
+                ops.append("OP %s %d" % (r.choice(["delete", "loadanddelete"]), base + j))
+            for j in range(cut - 2, n):
+                ops.append("OP load %d" % (base + j))
+            for j in range(cut, min(n, cut + 6)):
+                ops.append("OP loadorstore %d %d" % (base + j, val()))
         elif kind == "bulk_del":
             ks = list(range(pool)); r.shuffle(ks)
             for k in ks[: r.randint(1, pool)]:
@@ -108,7 +122,8 @@ def split_output(text):
             cur[1].append(line)
     return out
 
-def check(exe_impl, exe_model, cases, timeout=1200):
+def check(exe_impl, exe_model, cases, timeout=None):
+    timeout = timeout or C.driver_timeout()
     rc, out, err = C.sh([exe_impl], inp=render(cases), timeout=timeout)
     impl = split_output(out)
     if rc != 0 or len(impl) < len(cases):
@@ -133,10 +148,10 @@ def check(exe_impl, exe_model, cases, timeout=1200):
                 break
     return mism, impl, model
 
-def shrink(exe_impl, exe_model, case, pred=None):
+def shrink(exe_impl, exe_model, case, pred=None, quick_timeout=20):
     h, ops = case
     def bad(o):
-        m, _, _ = check(exe_impl, exe_model, [(h, o)])
+        m, _, _ = check(exe_impl, exe_model, [(h, o)], timeout=quick_timeout)
         return bool(m) if pred is None else any(pred(x) for x in m)
     if not bad(ops):
         return case
@@ -163,8 +178,8 @@ def twin_diff(exe_impl, seed, n):
         ops = [o for o in ops if o != "OP layout" and not o.startswith("OP range stopkey")]
         cases.append((h, ops))
     twin = [([h[0].replace(" map ", " mapof_sa ", 1)], o) for h, o in cases]
-    rc1, o1, e1 = C.sh([exe_impl], inp=render(cases), timeout=1200)
-    rc2, o2, e2 = C.sh([exe_impl], inp=render(twin), timeout=1200)
+    rc1, o1, e1 = C.sh([exe_impl], inp=render(cases), timeout=C.driver_timeout())
+    rc2, o2, e2 = C.sh([exe_impl], inp=render(twin), timeout=C.driver_timeout())
     a, b = split_output(o1), split_output(o2)
     def canon(line):
         m = re.match(r"(\d+ list )(\S*)( ;.*)", line)
